@@ -29,7 +29,7 @@ def check(pid, level, text, note, technique, design_ref, thorough=True):
     CHECKS[pid] = dict(level=level, text=text, note=note, technique=technique, design_ref=design_ref, thorough=thorough)
 
 check("C01", "exploration",
-      "Bounded-exhaustive enumeration of all request sequences up to length 2 (quick) / 3 (thorough) over a 72-symbol alphabet (18 kinds x {none, more, oneway, more+oneway}) at every pipelining depth through handle(), plus proptest-generated longer sequences (with shrinking) through handle() and through a real unix socket served by listen(); every reply stream is judged by an independent reference model of the test service and a reply-stream checker (order, exactly-once, no silent skip while open). Sampling, not proof: absence is only established inside the enumerated bound.",
+      "Bounded-exhaustive enumeration of all request sequences up to length 2 (quick) / 3 (thorough) over a 76-symbol alphabet (19 kinds x {none, more, oneway, more+oneway}) at every pipelining depth through handle(), plus proptest-generated longer sequences (with shrinking) through handle() and through a real unix socket served by listen(); every reply stream is judged by an independent reference model of the test service and a reply-stream checker (order, exactly-once, no silent skip while open). Sampling, not proof: absence is only established inside the enumerated bound.",
       "Trusted: serde_json, the harness' reference model (written from the property statements), the test service implementation. A closed connection is never itself a violation (the statement permits it). Socket hangs are reported as inconclusive (exit 2), never as violations.",
       "bounded-exhaustive enumeration + proptest sequences vs. reference model (model-based testing)", "DESIGN.md §4 C01")
 
